@@ -97,7 +97,7 @@ int main(int argc, char **argv) {
     str_case("foreign_p2_wrong_pw", "$argon2id$v=19$m=16,t=1,p=2$MDEyMzQ1Njc4OWFiY2RlZg$lWJkGzrKQkL7Hj9MnA4oOG4F1SwwUdMA1agUMtPMvNU", "passwore", 8, 1, 16);
     str_case("foreign_m_too_small_for_p", "$argon2id$v=19$m=15,t=1,p=2$MDEyMzQ1Njc4OWFiY2RlZg$lWJkGzrKQkL7Hj9MnA4oOG4F1SwwUdMA1agUMtPMvNU", "password", 8, 1, 15);
     /* ---- scrypt */
-    for (int i = 0; i < (full ? 14 : 7); i++) { unsigned char pwd[64], salt[40], out[80]; size_t pl = (size_t) i * 5, sl = 8 + (size_t) i; vrng_bytes(&R, pwd, pl); vrng_bytes(&R, salt, sl);
+    for (int i = 0; i < (full ? 14 : 7); i++) { unsigned char pwd[80], salt[40], out[128]; size_t pl = (size_t) i * 5, sl = 8 + (size_t) i; vrng_bytes(&R, pwd, pl); vrng_bytes(&R, salt, sl);
         uint64_t N = (uint64_t) 1 << (1 + i % (full ? 7 : 5)); uint32_t r = (uint32_t[]) { 1, 2, 8, 1, 3 }[i % 5], p = 1 + (uint32_t) i % 2; size_t ol = 16 + (size_t) i * 7;
         int ret = crypto_pwhash_scryptsalsa208sha256_ll(pwd, pl, salt, sl, N, r, p, out, ol);
         fprintf(v_out, "{\"op\":\"scrypt_ll\",\"N\":%llu,\"r\":%u,\"p\":%u,\"ret\":%d,", (unsigned long long) N, r, p, ret); v_emit_bytes("pwd", pwd, pl); fputc(',', v_out); v_emit_bytes("salt", salt, sl); fputc(',', v_out); v_emit_bytes("out", out, ol); fputs("}\n", v_out); }
